@@ -97,6 +97,16 @@ fn gen_c14(tier: &str, rng: &mut Rng, emit: &mut dyn FnMut(Op)) {
         emit(Op::new("plist.entry", &[l]));
         emit(Op::new("plist.parse", &[l]));
     }
+    // a line that ends in a backslash is a line; arguments have no length limit
+    for d in [&b"@exec echo one \\\nbin/two\nbin/three\n"[..], b"@unexec rm x \\\n@bogus\n", b"@exec a\\\\\nbin/b\n", b"bin/a\\\nbin/b\n", b"@comment c\\\nbin/b\n"] {
+        emit(Op::new("plist.parse", &[d]));
+    }
+    for cmd in ["@cwd", "@src", "@cd", "@pkgdir", "@dirrm", "@display", "@exec", "@comment", "@name", "@pkgdep"] {
+        for n in [1023usize, 1024, 1025, 5000] {
+            let l = format!("{} {}", cmd, "p".repeat(n));
+            emit(Op::new("plist.entry", &[l.as_bytes()]));
+        }
+    }
     // the first line is an entry like any other, also when it carries an expanded RCS Id
     for d in [&b"@comment $NetBSD: PLIST,v 1.2 2024/01/01 00:00:00 x Exp $\nbin/foo\n"[..], b"@comment $NetBSD$\nbin/foo\n",
         b"\n@comment $NetBSD: x $\n@comment $NetBSD: y $\n", b"@comment $NetBSD: only $", b"@name a-1\n@comment $NetBSD: second $\n"] {
@@ -132,7 +142,9 @@ fn gen_c14(tier: &str, rng: &mut Rng, emit: &mut dyn FnMut(Op)) {
 
 fn gen_c15(tier: &str, rng: &mut Rng, emit: &mut dyn FnMut(Op)) {
     let thorough = tier == "thorough";
-    let kinds: [&[u8]; 59] = [
+    let kinds: [&[u8]; 64] = [
+        // directories that contain one another; a file listed twice
+        b"@dirrm share", b"@dirrm share/y/z", b"@pkgdir share", b"@dirrm /", b"x",
         // "first of theirs", returned as stored: trailing blanks are part of the argument
         b"@name foo-1.0 ", b"@name foo-1.0\t", b"@display MESSAGE ", b"@name  bar-2 \xc2\xa0", b"@cwd share",
         // the same directory named by @pkgdir and @dirrm; numeric @mode spellings
